@@ -230,7 +230,7 @@ class Run:
                 errors.append((vf, out[-600:]))
                 continue
             total += int(m.group(1))
-            for a, b in re.findall(r"\((\d+), (\d+)\)", m.group(2)):
+            for a, b in re.findall(r"\(\s*(\d+),\s*(\d+)\s*\)", m.group(2)):
                 fails.append((k * meta["shard_size"] + int(a), int(b)))
         if errors:
             self.corr_broken.append("channel %s: Coq evaluation failed for %d shard(s): %s" % (channel, len(errors), errors[0][1][-300:]))
